@@ -46,11 +46,39 @@ def invalid_variants(rng: Rng, spec, cfg):
     return rng.shuffle(out)[:4]
 
 
+def near_copy(rng: Rng, spec):
+    """A different model that shares every name with `spec`: extern data types, enum field order, formal
+    directions and event order differ.  Anything keyed on names alone (a cache, a registry) confuses the two."""
+    v = json.loads(json.dumps(spec))
+    for e in v['externs']:
+        if rng.chance(70):
+            others = [c for c in modelgen.EXTERN_CPP if c[0] != e['cpp']]
+            e['cpp'], e['codec'] = rng.choice(others)
+    for itf in v['interfaces']:
+        if rng.chance(50) and len(itf['events']) > 1:
+            itf['events'] = rng.shuffle(itf['events'])
+        for ev in itf['events']:
+            if ev['dir'] == 'in':
+                for f in ev['formals']:
+                    if rng.chance(30):
+                        f['dir'] = rng.choice(['in', 'out', 'inout'])
+    for en in v['enums']:
+        if rng.chance(50):
+            en['fields'] = rng.shuffle(en['fields'])
+    return v
+
+
 def gen_universe(seed, u):
     rng = Rng(derive(seed, 'C12', 'universe', u))
     docs = []
+    base = None
     for k in range(3):
-        spec = modelgen.gen_spec(rng.fork('spec', k), want_mc=(k == 0) or None)
+        if k == 1:
+            spec = near_copy(rng.fork('copy'), base)
+        else:
+            spec = modelgen.gen_spec(rng.fork('spec', k), want_mc=(k == 0) or None)
+        if k == 0:
+            base = spec
         text = orjson.dumps(modelgen.to_json_ast(spec, rng.fork('json', k))).decode('utf-8')
         cfgs = []
         for c in range(3):
@@ -281,10 +309,13 @@ def run_check(tier, seed, n_universes, n_hist):
     stats = {}
     digests, nontrivial = set(), set()
     samples = []
+    import hashlib
+    rd = hashlib.sha256()
     for status, r in results:
         if status != 'ok':
             rep.harness_errors.append(r)
             continue
+        rd.update(json.dumps([r['u'], r['digests'], sorted(r['stats'].items()), r['violation'] and r['violation']['class']]).encode())
         total_h += r['histories']
         total_ops += r['ops']
         refs += r['refs']
@@ -308,6 +339,7 @@ def run_check(tier, seed, n_universes, n_hist):
         'fault_kinds_fired': faults, 'probes': probes,
         'simulated_time': 'not applicable (no clock); logical operations only', 'distinct_interleavings': len(digests),
         'interleaving_measure': 'distinct operation sequences over the pools of parsed models, configurations and builders',
+        'run_digest': rd.hexdigest(),
         'seeds': f'VERIF_SEED={seed}; universes SHA256(seed/C12/universe/<u>), u<{n_universes}',
     }
     return rep.finish()
